@@ -6,7 +6,7 @@ RULE = ("random declaration histories over at most 7 commodities (1-3 components
         "edges giving alternative paths and cycles, redeclarations of pairs in either direction, self declarations, shuffled "
         "order, prices with 0-14 decimals, tiny, huge and negative prices, 5% with a zero price) through the exported Go API "
         "in-process: Prices.Insert (op C12.ins, the stored map) and Normalize + Price + Valuate for one or two valuation "
-        "commodities (op C12.norm, Normalize called 5 times, '!nondet' when two calls differ); plus the decimal primitives "
+        "commodities (op C12.norm, Normalize called 25 times, '!nondet' when two calls differ); plus the decimal primitives "
         "Div/Truncate/Mul/String on random pairs (op C12.dec).  Non-trivial: the history has an alternative path or cycle "
         "(more declared pairs than a forest allows), a redeclaration, more than one component or a zero price; distinct by input.")
 
